@@ -537,6 +537,9 @@ class Ctx:
             if search is not None:
                 log("[%s] proof/correspondence broken; searching for a failing input ..." % self.prop)
                 found = search(self)
+                if found:
+                    # a listed known finding is not a failing input for this broken obligation
+                    found = [m for m in found if not self.known_finding(m)] or None
             payload = {"property": self.prop, "seed": self.seed, "tier": self.tier,
                        "broken": broken, "differences": [m for _, m in diff_msgs[:20]]}
             if found:
